@@ -1575,4 +1575,236 @@ val events : nat -> state0 -> sx list -> nat -> sx
 
 val run_seq0 : sx -> sx
 
+type ctree =
+| CT of bits * ctree list
+
+val ct_bits : ctree -> bits
+
+val ct_refs : ctree -> ctree list
+
+type bld = { bb : bits; br : ctree list }
+
+val empty_bld : bld
+
+val put_bits : bits -> bld -> bld res
+
+val put_ref : ctree -> bld -> bld res
+
+val finish0 : bld -> ctree
+
+type slc = { sb : bits; sr : ctree list }
+
+val open0 : ctree -> slc
+
+val take_bits : nat -> slc -> (bits * slc) res
+
+val take_ref : slc -> (ctree * slc) res
+
+type ty =
+| TUint of nat
+| TInt of nat
+| TBigUint of nat
+| TBigInt of nat
+| TBool
+| TBits of nat
+| TVarUInt of nat
+| TUnary
+| TMagic of nat * n
+| TMaybe of ty
+| TEither of ty * ty
+| TEitherRef of ty
+| TRef of ty
+| TMaybeRef of ty
+| TStruct of ty list
+| TSum of ((nat * n) * ty) list
+| TAny
+| TCellRef
+| TAddr
+| TNamed of nat
+
+type addrv =
+| ANone
+| AExt of bits
+| AStd of (n * n) option * z * bits
+| AVar of (n * n) option * z * bits
+
+type value =
+| VAddr of addrv
+| VN of n
+| VZ of z
+| VBool of bool
+| VBits of bits
+| VUnit
+| VMaybe of value option
+| VEither of bool * value
+| VStruct of value list
+| VSum of nat * value
+| VAny of bits * ctree list
+| VCell of ctree
+
+val eTlb : n
+
+val byte_len0 : n -> nat
+
+val enc_int_bits : nat -> z -> bits
+
+val dec_int_bits : bits -> z
+
+val unary_go : ctree list -> nat -> bits -> n -> (value * slc) res
+
+val any_bits : (n * n) option -> bits
+
+val addr_bits : addrv -> bits
+
+val rd0 : nat -> bits -> (bits * bits) res
+
+val any_parse : bits -> ((n * n) option * bits) res
+
+val addr_parse : bits -> (addrv * bits) res
+
+val enc : ty list -> nat -> ty -> value -> bld -> bld res
+
+val dec : ty list -> nat -> ty -> slc -> (value * slc) res
+
+val put_list : ty list -> nat -> ty -> value list -> bld -> bld res
+
+val enc_stack : ty list -> nat -> ty -> value list -> bld -> bld res
+
+val get_cell : ty list -> nat -> ty -> ctree -> n -> value list res
+
+val dec_stack : ty list -> nat -> ty -> slc -> value list res
+
+val small1 : n -> nat option
+
+val omap : ('a1 -> 'a2) -> 'a1 option -> 'a2 option
+
+val obind : 'a1 option -> ('a1 -> 'a2 option) -> 'a2 option
+
+val ty_of : sx -> ty option
+
+val cell_of : sx -> ctree option
+
+val cell_sx0 : ctree -> sx
+
+val any_of : sx -> (n * n) option option
+
+val addr_of : sx list -> addrv option
+
+val val_of : sx -> value option
+
+val any_sx : (n * n) option -> sx
+
+val val_sx : value -> sx
+
+val fuel : nat
+
+val bits_eqb1 : bits -> bits -> bool
+
+val cell_eqb_sx : ctree -> ctree -> bool
+
+val run_rt : sx -> sx
+
+val run_dec : sx -> sx
+
+val run_stack : sx -> sx
+
+type schema =
+| SUint of nat
+| SInt of nat
+| SBits0 of nat
+| SLe of n
+| SVar of nat
+| SBool
+| SUnary
+| STag of nat * n
+| SMaybe of schema
+| SEither of schema * schema
+| SRef of schema
+| SSeq of schema list
+| SAlt of ((nat * n) * schema) list
+| SAny
+| SCell
+| SDictE of nat
+| SAddr
+
+val numeral : nat -> n -> bits
+
+val twos : nat -> z -> bits
+
+val min_bytes : n -> nat
+
+val le_width : n -> nat
+
+val s_anycast : (n * n) option -> bits
+
+val s_addr : addrv -> bits
+
+val spec_encode : schema -> value -> (bits * ctree list) option
+
+val is_any : ty -> bool
+
+val refines : nat -> schema -> ty -> bool
+
+val s_unit : schema
+
+val s_MsgAddress : schema
+
+val s_Grams : schema
+
+val s_ExtraCurrencyCollection : schema
+
+val s_CurrencyCollection : schema
+
+val s_CommonMsgInfo : schema
+
+val s_TickTock : schema
+
+val s_SimpleLib : schema
+
+val s_StateInit : schema
+
+val s_Message : schema
+
+val s_AccountStatus : schema
+
+val s_AccStatusChange : schema
+
+val s_ComputeSkipReason : schema
+
+val s_HashUpdate : schema
+
+val s_StorageUsedShort : schema
+
+val s_TrStoragePhase : schema
+
+val s_TrCreditPhase : schema
+
+val s_TrComputePhase : schema
+
+val s_TrActionPhase : schema
+
+val s_TrBouncePhase : schema
+
+val s_SplitMergeInfo : schema
+
+val s_TransactionDescr : schema
+
+val s_Transaction : schema
+
+val s_SignedMsgBody : schema
+
+val ext_in_value : z -> bits -> n -> value option -> ctree -> value
+
+val schema_table : (string * schema) list
+
+val lookup1 : string -> (string * schema) list -> schema option
+
+val prim_schema : ty -> schema option
+
+val same_as_schema : schema -> value -> ctree -> bool
+
+val run_spec : sx -> sx
+
+val run_extmsg : sx -> sx
+
 val run : string -> sx -> sx
